@@ -977,7 +977,9 @@ impl PackageBuilder {
             IndexEntry::new(
                 IndexTag::RPMTAG_GROUP,
                 offset,
-                IndexData::I18NString(vec!["Unspecified".to_string()]),
+                IndexData::I18NString(vec![
+                    self.group.unwrap_or_else(|| "Unspecified".to_string()),
+                ]),
             ),
             IndexEntry::new(
                 IndexTag::RPMTAG_ARCH,
@@ -1387,6 +1389,14 @@ impl PackageBuilder {
                 IndexTag::RPMTAG_VENDOR,
                 offset,
                 IndexData::StringTag(vendor),
+            ));
+        }
+
+        if let Some(packager) = self.packager {
+            actual_records.push(IndexEntry::new(
+                IndexTag::RPMTAG_PACKAGER,
+                offset,
+                IndexData::StringTag(packager),
             ));
         }
 
